@@ -82,7 +82,8 @@ def check(ctx) -> Result:
     conv = Q.methods["convert"]
     GATE_ADDERS = ("_add_single_qubit_gate", "_add_single_qubit_rotation_gate", "_add_two_qubit_gate", "_add_three_qubit_gate")
     def _is_dispatch(x):
-        return isinstance(x, ast.Call) and isinstance(x.func, ast.Attribute) and src(x.func.value) == "self" and x.func.attr in GATE_ADDERS
+        # a call that hands on a gate *name taken from the input circuit* (a literal name is an internal re-entry)
+        return isinstance(x, ast.Call) and isinstance(x.func, ast.Attribute) and src(x.func.value) == "self" and x.func.attr in GATE_ADDERS and not (x.args and isinstance(x.args[0], ast.Constant))
     dispatchers = [f for f in Q.methods.values() if f.name not in GATE_ADDERS and any(_is_dispatch(x) for x in walk_no_nested(f.node))]
     if not dispatchers:
         res.frozen(False, "D-unsupported-gate-refused", "QiskitConverter", conv.site(), conv.qualname, "", "dispatch to the gate-adding methods not recognised", construct="")
